@@ -105,6 +105,9 @@ type gbPrinter struct {
 	nfunc  int
 	ncount map[string]int
 	fns    map[int]*gbFn // closures by number
+	// stmtExt: statement forms of another generator that shares the normal form (iodelegate.go: `defer`);
+	// nil for the reader
+	stmtExt func(p *gbPrinter, sc *gbScope, s ast.Stmt, ind int, out *[]gbLine) bool
 }
 
 func (p *gbPrinter) refuse(n ast.Node, format string, a ...interface{}) {
@@ -714,6 +717,9 @@ func (p *gbPrinter) stmt(sc *gbScope, s ast.Stmt, ind int, out *[]gbLine) {
 			p.block(in, cc.Body, ind+2, out)
 		}
 	default:
+		if p.stmtExt != nil && p.stmtExt(p, sc, s, ind, out) {
+			return
+		}
 		p.refuse(s, "statement %T", s)
 	}
 }
